@@ -236,7 +236,7 @@ def check_loops(R, P, u):
             inner = cfg.reachable(mir, succ_in, avoid=adv | (set(mir.live_blocks()) - body))
             cyc = h in inner and h not in adv
             R.check(not cyc and adv, "R01.3", "loop:%s@bb-head#%d" % (b.npath, sorted(x for x, _ in loops).index(h)), "every cycle advances a finite iterator (%d advancing call(s))" % len(adv), "loop in %s can cycle without advancing any finite iterator: it may not terminate" % b.npath, where=mir.blocks[h]["term"].get("line"))
-    R.floor("R01.3", "loops", n_loops, 12)
+    R.floor("R01.3", "loops", n_loops, 6)
 
 
 def check_recursion(R, P, u):
